@@ -163,6 +163,7 @@ def run(ctx):
     ctx.guard("R16.2", "lookup", lambda: r16_2_3(ctx))
     ctx.guard("R16.4", "dedup", lambda: r16_4(ctx))
     ctx.guard("R16.5", "nf-tb", lambda: nf_common.nf_rule(ctx, "R16.5", TB, floor=45))
+    ctx.guard("R16.5", "nf-tok-misc", lambda: nf_common.nf_rule(ctx, "R16.5", "xml_tokenizer_misc", only=("process_qname", "equiv_modulo_attr_order")))
     ctx.guard("R16.5", "nf-qname", lambda: nf_common.nf_rule(ctx, "R16.5", "xml_driver", only=("qname",)))
 
     def tok():
